@@ -25,6 +25,13 @@ use vx::{guard, json, Ctx, Level};
 
 const MIN: usize = 16 * 1024 * 8;
 
+/// Credential-level operation: `set_credential_status(index-id, value)` or `update(|l| ..)` applying an ordered batch of writes.
+#[derive(Serialize, Deserialize, Debug, Clone, PartialEq, Eq, Hash)]
+enum CredOp {
+  Set(u8, bool),
+  Update(Vec<(u8, bool)>),
+}
+
 #[derive(Serialize, Deserialize, Debug, Clone, PartialEq)]
 enum Case {
   /// 3-byte list; `pos` is the byte that holds `byte`, the two others hold `nb`; write `value` at bit `offset` of it.
@@ -34,8 +41,8 @@ enum Case {
   OutOfRange { bytes: usize, k: usize, set: bool },
   /// (c): initial pattern byte, list size in entries, sequence of (index-id, value)
   History { pattern: u8, entries: usize, ops: Vec<(u8, bool)> },
-  /// (d): purpose (0 revocation, 1 suspension), sequence of (via_update, index-id, value)
-  Cred { purpose: u8, ops: Vec<(bool, u8, bool)> },
+  /// (d): purpose (0 revocation, 1 suspension), sequence of credential operations
+  Cred { purpose: u8, ops: Vec<CredOp> },
 }
 
 fn gz_b64(bytes: &[u8]) -> String {
@@ -212,10 +219,10 @@ fn eval(ctx: &Ctx, case: &Case) {
     }
     Case::Cred { purpose, ops } => {
       let col = Collector::new();
-      let m = CredModel { col: col.clone() };
+      let m = CredModel { col: col.clone(), batch_len: 0 };
       let mut st = m.init_states().remove(*purpose as usize);
       for a in ops {
-        match m.next_state(&st, *a) {
+        match m.next_state(&st, a.clone()) {
           Some(n) => st = n,
           None => break,
         }
@@ -344,7 +351,7 @@ struct CredState {
   cred: StatusList2021Credential,
   purpose: u8,
   model: BTreeSet<usize>,
-  hist: Vec<(bool, u8, bool)>,
+  hist: Vec<CredOp>,
   fp: String,
 }
 impl PartialEq for CredState {
@@ -383,6 +390,8 @@ fn subject_credential(status: Option<Status>) -> Credential {
 }
 struct CredModel {
   col: Arc<Collector>,
+  /// longest ordered batch of writes inside one `update` call
+  batch_len: usize,
 }
 impl CredModel {
   /// Status evaluation at a state: for every index of the universe (+ neighbours + out of range) and
@@ -488,7 +497,7 @@ impl CredModel {
 }
 impl Model for CredModel {
   type State = CredState;
-  type Action = (bool, u8, bool);
+  type Action = CredOp;
   fn init_states(&self) -> Vec<CredState> {
     (0..2u8)
       .map(|p| {
@@ -504,41 +513,84 @@ impl Model for CredModel {
       })
       .collect()
   }
-  fn actions(&self, _s: &CredState, out: &mut Vec<Self::Action>) {
-    for via_update in [false, true] {
-      for id in 0..CRED_IDX.len() as u8 {
-        for v in [true, false] {
-          out.push((via_update, id, v));
+  fn actions(&self, _s: &CredState, out: &mut Vec<CredOp>) {
+    let writes: Vec<(u8, bool)> = (0..CRED_IDX.len() as u8).flat_map(|id| [(id, true), (id, false)]).collect();
+    for w in &writes {
+      out.push(CredOp::Set(w.0, w.1));
+    }
+    // update(|l| ..) with EVERY ordered batch of 1..=batch_len writes (duplicates and no-op writes included)
+    let mut batches: Vec<Vec<(u8, bool)>> = vec![vec![]];
+    for _ in 0..self.batch_len {
+      let mut next = Vec::new();
+      for b in &batches {
+        for w in &writes {
+          let mut nb = b.clone();
+          nb.push(*w);
+          next.push(nb);
         }
       }
+      for b in &next {
+        out.push(CredOp::Update(b.clone()));
+      }
+      batches = next;
     }
   }
-  fn next_state(&self, s: &CredState, (via_update, id, v): Self::Action) -> Option<CredState> {
+  fn next_state(&self, s: &CredState, op: CredOp) -> Option<CredState> {
     self.col.eval1();
     let mut n = s.clone();
-    n.hist.push((via_update, id, v));
+    n.hist.push(op.clone());
     let case = Case::Cred { purpose: s.purpose, ops: n.hist.clone() };
-    let i = CRED_IDX[id as usize];
-    let refuse = s.purpose == 0 && !v && s.model.contains(&i);
-    let mut target = subject_credential(None);
-    let r = if via_update {
-      guard(|| n.cred.update(|l| l.set_entry(i, v))).map(|r| r.map(|_| None))
-    } else {
-      guard(|| n.cred.set_credential_status(&mut target, i, v)).map(|r| r.map(Some))
+    // reference model: writes are applied in order; the first refused write (clearing a set revocation entry)
+    // aborts the whole operation and nothing is written back
+    let writes: Vec<(u8, bool)> = match &op {
+      CredOp::Set(id, v) => vec![(*id, *v)],
+      CredOp::Update(b) => b.clone(),
     };
-    let op = if via_update { "update(set_entry)" } else { "set_credential_status" };
+    let mut model = s.model.clone();
+    let mut refuse = false;
+    for (id, v) in &writes {
+      let i = CRED_IDX[*id as usize];
+      if s.purpose == 0 && !*v && model.contains(&i) {
+        refuse = true;
+        break;
+      }
+      if *v {
+        model.insert(i);
+      } else {
+        model.remove(&i);
+      }
+    }
+    let mut target = subject_credential(None);
+    let (r, opname) = match &op {
+      CredOp::Set(id, v) => {
+        let i = CRED_IDX[*id as usize];
+        (guard(|| n.cred.set_credential_status(&mut target, i, *v)).map(|r| r.map(Some)), "set_credential_status")
+      }
+      CredOp::Update(b) => (
+        guard(|| {
+          n.cred.update(|l| {
+            for (id, v) in b {
+              l.set_entry(CRED_IDX[*id as usize], *v)?;
+            }
+            Ok(())
+          })
+        })
+        .map(|r| r.map(|_| None)),
+        "update(set_entry)",
+      ),
+    };
     match r {
       Err(p) => {
-        self.col.violation(&format!("StatusList2021Credential::{op}|{}", p.key()), &p.msg, &case);
+        self.col.violation(&format!("StatusList2021Credential::{opname}|{}", p.key()), &p.msg, &case);
         return None;
       }
       Ok(Err(e)) => {
         if !refuse || e != StatusList2021CredentialError::UnreversibleRevocation {
-          self.col.violation(&format!("StatusList2021Credential::{op}|permitted-op-rejected"), &format!("{e} after {:?}", n.hist), &case);
+          self.col.violation(&format!("StatusList2021Credential::{opname}|permitted-op-rejected"), &format!("{e} after {:?}", n.hist), &case);
           return None;
         }
         if cred_fp(&n.cred) != s.fp {
-          self.col.violation(&format!("StatusList2021Credential::{op}|refused-op-changed-state"), &format!("{:?}", n.hist), &case);
+          self.col.violation(&format!("StatusList2021Credential::{opname}|refused-op-changed-state"), &format!("{:?}", n.hist), &case);
           return None;
         }
         self.col.outcome("cred:unreversible-revocation-refused");
@@ -546,30 +598,30 @@ impl Model for CredModel {
       Ok(Ok(entry)) => {
         if refuse {
           self.col.violation(
-            &format!("StatusList2021Credential::{op}|revocation-cleared"),
-            &format!("revocation entry {i} was set and clearing it returned Ok after {:?}", n.hist),
+            &format!("StatusList2021Credential::{opname}|revocation-cleared"),
+            &format!("a set revocation entry was cleared and the operation returned Ok after {:?}", n.hist),
             &case,
           );
           return None;
         }
-        if v {
-          n.model.insert(i);
-        } else {
-          n.model.remove(&i);
-        }
-        if let Some(e) = entry {
+        n.model = model;
+        if let (Some(e), CredOp::Set(id, _)) = (entry, &op) {
+          let i = CRED_IDX[*id as usize];
           let want: Status = StatusList2021Entry::new(Url::parse(LIST_URL).unwrap(), purpose_of(s.purpose), i, None).into();
           if e.index() != i || e.purpose() != purpose_of(s.purpose) || target.credential_status.as_ref() != Some(&want) {
             self.col.violation("StatusList2021Credential::set_credential_status|wrong-entry-attached", &format!("{e:?}"), &case);
             return None;
           }
         }
-        self.col.outcome(if v { "cred:set" } else { "cred:clear" });
+        self.col.outcome(if n.model == s.model { "cred:no-change" } else { "cred:changed" });
       }
     }
     n.fp = cred_fp(&n.cred);
-    // status-evaluation discrepancies are recorded but do not cut the search: the state itself is consistent
-    let _ = self.check_status(&n, &case);
+    // every entry must read the last value written (this is what catches a dropped or partially applied batch);
+    // a divergence between real state and model cuts the search below this state
+    if !self.check_status(&n, &case) {
+      return None;
+    }
     // serde round trip of the credential is the identity
     match guard(|| serde_json::from_str::<StatusList2021Credential>(&n.fp)) {
       Ok(Ok(back)) if back == n.cred => {}
@@ -638,7 +690,9 @@ fn generate(ctx: &Ctx) {
     }
   }
   // (d)
-  let st = vx::sr::run(ctx, "credential ops", None, |col| CredModel { col });
+  let batch_len = ctx.by_tier(2, 3);
+  ctx.bound("update_batch_len", batch_len);
+  let st = vx::sr::run(ctx, "credential ops", None, |col| CredModel { col, batch_len });
   for i in 0..st.unique {
     ctx.distinct(&(5u8, i));
   }
